@@ -18,6 +18,7 @@ func genAll() {
 	genBeaconNode()
 	genDKGRun()
 	genSync()
+	genCheckPast()
 	genHandler()
 	genNetRules()
 	genHTTPW()
